@@ -150,6 +150,8 @@ pub struct Inject {
     /// the n-th frame of command `cmd` (ACMDs: | 0x80) in the current driver call is not executed;
     /// the card answers it with this R1 byte instead (a card-side glitch / refusal)
     pub r1_override: Option<(u8, u32, u8)>,
+    /// the four bytes that follow R1 in the answer to the n-th CMD8 of the current call
+    pub r7: Option<(u32, [u8; 4])>,
 }
 
 #[derive(Clone, Debug)]
@@ -465,10 +467,12 @@ impl Card {
         if cmd == 23 && !app {
             self.violate("C14.acmd-without-cmd55", "index 23 not directly preceded by CMD55".into());
         }
+        let nth_this;
         {
             let key = cmd | if app { 0x80 } else { 0 };
             let seen = self.cmd_seen.entry(key).or_insert(0);
             let nth = *seen;
+            nth_this = nth;
             *seen += 1;
             if let Some((c, n, val)) = self.inject.r1_override {
                 if c == key && n == nth {
@@ -513,7 +517,13 @@ impl Card {
                     self.queue_response(&[r]);
                 } else {
                     let r = self.r1();
-                    self.queue_response(&[r, 0x00, 0x00, ((arg >> 8) & 0x0F) as u8, arg as u8]);
+                    match self.inject.r7 {
+                        Some((n, b)) if n == nth_this => {
+                            self.corrupted_this_call = true;
+                            self.queue_response(&[r, b[0], b[1], b[2], b[3]]);
+                        }
+                        _ => self.queue_response(&[r, 0x00, 0x00, ((arg >> 8) & 0x0F) as u8, arg as u8]),
+                    }
                 }
             }
             55 => {
@@ -655,6 +665,10 @@ impl Card {
             self.violate("C14.bad-data-crc", format!("data block for block {} carries CRC {:#06x}, correct is {:#06x} (CRC mode on)", self.write_block, crc, crc16_ref(data)));
         }
         let mut token = if self.crc_on && !good { 0x0B } else { 0x05 };
+        if self.write_block as u64 >= self.nblocks {
+            // running off the end of the card inside a multiple-block write: write error
+            token = 0x0D;
+        }
         if let Some((k, t)) = self.inject.data_response {
             if k == self.data_blocks_received {
                 token = t;
@@ -714,13 +728,15 @@ impl Card {
         // keep a multi-block read flowing
         if self.tx.is_empty() {
             if let Some(b) = self.read_stream {
-                let nb = b.wrapping_add(1);
                 // (past the last block the card has nothing more to send, but the read is still open
                 // until the host stops it)
-                self.read_stream = Some(nb);
-                if (nb as u64) < self.nblocks {
-                    let d = self.block(nb);
-                    self.queue_data_block(&d);
+                if (b as u64) < self.nblocks {
+                    let nb = b.saturating_add(1);
+                    self.read_stream = Some(nb);
+                    if (nb as u64) < self.nblocks {
+                        let d = self.block(nb);
+                        self.queue_data_block(&d);
+                    }
                 }
             }
         }
